@@ -217,6 +217,10 @@ pub fn c14_tree(ctx: &mut Ctx, t: &Term, pres: &[Vec<Pre>]) {
 /// a == b must imply equal hashes and equal answers (neighbours one edit apart).
 pub fn c14_neighbours(ctx: &mut Ctx, t: &Term, e: &Term, kind: &str, pres: &[Vec<Pre>]) {
   let (ta, tb) = (model::model_text(t), model::model_text(e));
+  let fresh_eq = {
+    let (a, b) = (t.build(), e.build());
+    observe::guarded(|| &a == &b).unwrap_or(false)
+  };
   for pa in pres {
     for pb in pres {
       ctx.evaluations += 1;
@@ -228,6 +232,16 @@ pub fn c14_neighbours(ctx: &mut Ctx, t: &Term, e: &Term, kind: &str, pres: &[Vec
       };
       let eq = observe::guarded(|| &a == &b).unwrap_or(false);
       let sym = observe::guarded(|| &b == &a).unwrap_or(false);
+      if eq != fresh_eq {
+        ctx.violation(
+          "equality_depends_on_history",
+          kind.to_string(),
+          None,
+          case,
+          t.size(),
+          format!("edit {kind}: the fresh values compare {fresh_eq}, after observer prefixes {pa:?} / {pb:?} they compare {eq}"),
+        );
+      }
       if eq != sym {
         ctx.violation("eq_not_symmetric", kind.to_string(), None, case, t.size(), format!("a==b is {eq}, b==a is {sym}"));
       }
@@ -410,6 +424,14 @@ fn edit_mapspec(m: &crate::term::MapSpec, what: &str) -> Vec<(String, crate::ter
   }
   {
     let mut x = m.clone();
+    x.debug_id = Some(match &m.debug_id {
+      Some(d) => format!("{d}2"),
+      None => "debug-id".into(),
+    });
+    push("debug_id", x);
+  }
+  {
+    let mut x = m.clone();
     x.root = Some(match &m.root {
       Some(f) => format!("{f}2"),
       None => "root".into(),
@@ -423,7 +445,11 @@ fn edit_mapspec(m: &crate::term::MapSpec, what: &str) -> Vec<(String, crate::ter
 pub fn edits(t: &Term) -> Vec<(String, Term)> {
   let mut out: Vec<(String, Term)> = Vec::new();
   match t {
-    Term::Raw(s) => out.extend(edit_text(s).into_iter().map(|(k, x)| (format!("raw.{k}"), Term::Raw(x)))),
+    Term::Raw(s) => {
+      out.extend(edit_text(s).into_iter().map(|(k, x)| (format!("raw.{k}"), Term::Raw(x))));
+      // same bytes held as a buffer: not equal, hashes alike by design
+      out.push(("raw.kind_string_to_buffer".into(), Term::RawBuf(s.as_bytes().to_vec())));
+    }
     Term::RawStr(s) => out.extend(edit_text(s).into_iter().map(|(k, x)| (format!("rawstr.{k}"), Term::RawStr(x)))),
     Term::RawBuf(b) => {
       let mut x = b.clone();
@@ -444,6 +470,11 @@ pub fn edits(t: &Term) -> Vec<(String, Term)> {
         let mut s = (**spec).clone();
         s.value = x;
         out.push((format!("sms.value.{k}"), Term::Sms(Box::new(s))));
+      }
+      {
+        let mut s = (**spec).clone();
+        s.name.push('2');
+        out.push(("sms.name".into(), Term::Sms(Box::new(s))));
       }
       for (k, m) in edit_mapspec(&spec.map, "sms.map") {
         let mut s = (**spec).clone();
@@ -645,6 +676,12 @@ pub fn c20_worker(tier: &str, k: usize, n: usize, ctx: &mut Ctx) {
     }
     // sensitivity: every single edit at every node
     for (kind, e) in edits(t) {
+      // excluded by the statement / reading 6.3: the name of a SourceMapSource and debugId are
+      // deliberately not hashed (equality does see them: C14)
+      if kind.ends_with("sms.name") || kind.ends_with("debug_id") {
+        ctx.count("edits_excluded_by_the_statement");
+        continue;
+      }
       ctx.states += 1;
       ctx.sample(2_000, 3, || json!({"edit": kind, "term": serde_json::to_value(t).unwrap(), "edited": serde_json::to_value(&e).unwrap()}));
       c20_pair(ctx, t, &e, &kind);
